@@ -184,6 +184,9 @@ def write_world(d: Path, w: Dict[str, Any]) -> Path:
     if w.get("mechatronics"):
         (d / "mechatronics" / "mech.yaml").write_text(yaml.safe_dump(w["mechatronics"]))
         inp["mechatronics_file"] = "mech.yaml"
+    for rel, content in (w.get("extra_files") or {}).items():       # e.g. a power curve of the scenario's own
+        (d / rel).parent.mkdir(parents=True, exist_ok=True)
+        (d / rel).write_text(content if isinstance(content, str) else yaml.safe_dump(content))
     net: Dict[str, Any] = {"network_type": "euclidean"}
     if w.get("osm"):
         net = {"network_type": "osm_network"}
